@@ -5,6 +5,7 @@ import (
 	"fmt"
 	"math"
 	"math/rand"
+	"runtime"
 	"sort"
 	"sync"
 	"sync/atomic"
@@ -113,7 +114,7 @@ func init() {
 		Rule: "real janitor (DeleteExpiredJobInterval=1ms, DeleteExpiredAfter=1h) paused between cycles at its EvictionNeeded call-out; seeded rounds write mixes of never-expiring, fresh (+1h..+3h), " +
 			"recently expired (-1s..-30min) and long-expired (-2h..-10h) entries, then let 1..3 cleanup cycles run and compare Len/Walk/Read with the model (survivors = all but long-expired); " +
 			"TimeToLive finite and Unlimited (incl. first per-call TTL arriving late), all three backends; distinct_nontrivial = distinct (backend, ttl mode, class-mix pattern per round) cases containing a long-expired and a surviving entry",
-		Required:    []string{"cycles.observed", "entries.long_expired.deleted", "entries.never.survived", "entries.recent.survived", "entries.fresh.survived", "unlimited.late_ttl.cases", "kind.ShardedMap", "kind.SyncMap", "kind.ShardedMapOf", "stress.rounds", "aging.must_be_deleted.checked", "aging.must_survive.checked"},
+		Required:    []string{"cycles.observed", "entries.long_expired.deleted", "entries.never.survived", "entries.recent.survived", "entries.fresh.survived", "unlimited.late_ttl.cases", "hostile_callout.writes", "kind.ShardedMap", "kind.SyncMap", "kind.ShardedMapOf", "stress.rounds", "aging.must_be_deleted.checked", "aging.must_survive.checked", "parked.cases", "renewed.entries_checked"},
 		Assumptions: []string{"wall clock not stepped; class margins are >=1s against a 1h DeleteExpiredAfter boundary", "no eviction limit configured; EvictionNeeded always answers false"},
 		Timeout:     func(string) time.Duration { return 15 * time.Minute },
 	})
@@ -124,6 +125,14 @@ func runC11(b *Batch) {
 	for i := 0; i < nStress; i++ {
 		if !b.Skip(1000000 + i) {
 			c11Stress(b, 1000000+i)
+		}
+		if !b.Skip(1500000 + i) {
+			c11Renewed(b, 1500000+i)
+		}
+	}
+	for i := 0; i < b.Pick(6, 60); i++ {
+		if !b.Skip(1700000 + i) {
+			c11Parked(b, 1700000+i)
 		}
 	}
 	if !b.Skip(2000000) && b.Only < 0 || b.Only == 2000000 {
@@ -165,6 +174,8 @@ func c11Case(b *Batch, idx int) {
 	}
 	g := newJanGate()
 	cfg.EvictionNeeded = g.evictionNeeded
+	hostile := &calloutStats{}
+	cfg.Stats = hostile
 	be := newBackend(kind, cfg)
 	b.R.Eval()
 	b.R.Count("kind."+kind, 1)
@@ -233,6 +244,33 @@ func c11Case(b *Batch, idx int) {
 			model[k] = &c11Entry{val: v, class: class}
 			classes[class]++
 			hist = append(hist, fmt.Sprintf("write %s=%s %s", k, v, class))
+		}
+		if rng.Intn(5) == 0 {
+			// DeleteAll / ExpireAll whose metric call-out writes a long-expired entry: the write races with the end of the
+			// batch operation exactly as a concurrent writer would
+			late := fmt.Sprintf("late-%d", r)
+			tok++
+			lv := fmt.Sprintf("v%d", tok)
+			hostile.arm(func() {
+				be.Write(cache.WithTTL(bg, -5*time.Hour, false), []byte(late), lv)
+			})
+			if rng.Intn(2) == 0 {
+				be.DeleteAll(bg)
+				model = map[string]*c11Entry{}
+				hist = append(hist, "DeleteAll with a long-expired write during its cache_delete call-out")
+			} else {
+				be.ExpireAll(bg)
+				advanceClock()
+				for _, e := range model {
+					e.class = "recent" // every entry, also a long-expired one, now expired just now
+				}
+				hist = append(hist, "ExpireAll with a long-expired write during its cache_expired call-out")
+			}
+			if hostile.fired() {
+				model[late] = &c11Entry{val: lv, class: "long"}
+				b.R.Count("hostile_callout.writes", 1)
+			}
+			pattern += "H;"
 		}
 		pattern += fmt.Sprintf("%d:%v;", r, classes)
 		cycles := 1 + rng.Intn(3)
@@ -361,7 +399,7 @@ func c12Case(b *Batch, idx int) {
 	strategies := []cache.EvictionStrategy{cache.EvictMostExpired, cache.EvictLeastRecentlyUsed, cache.EvictLeastFrequentlyUsed}
 	sNames := []string{"MostExpired", "LRU", "LFU"}
 	si := rng.Intn(3)
-	triggers := []string{"none", "count", "needed", "heap", "count+heap"}
+	triggers := []string{"none", "count", "needed", "heap", "count+heap", "sys-huge", "sys-huge+count", "sys-tiny"}
 	trigger := triggers[rng.Intn(len(triggers))]
 	unlimited := rng.Intn(3) == 0
 
@@ -387,8 +425,15 @@ func c12Case(b *Batch, idx int) {
 	case "count+heap":
 		cfg.CountSoftLimit = uint64(L)
 		cfg.HeapInUseSoftLimit = 1
+	case "sys-huge": // a configured limit that is never exceeded: must not trigger anything
+		cfg.SysMemSoftLimit = 1 << 60
+	case "sys-huge+count":
+		cfg.SysMemSoftLimit = 1 << 60
+		cfg.CountSoftLimit = uint64(L)
+	case "sys-tiny": // always exceeded, behaves like the heap trigger
+		cfg.SysMemSoftLimit = 1
 	}
-	heap := cfg.HeapInUseSoftLimit != 0
+	heap := cfg.HeapInUseSoftLimit != 0 || cfg.SysMemSoftLimit == 1
 	be := newBackend(kind, cfg)
 	b.R.Eval()
 	cell := fmt.Sprintf("%s/%s/%s/L=%d/n=%d/f=%v/u=%v", kind, sNames[si], trigger, L, n, frac, unlimited)
@@ -491,7 +536,7 @@ func c12Case(b *Batch, idx int) {
 	}
 	evictsBefore := atomic.LoadInt64(&g.evicts)
 
-	if nDead > 0 && (trigger == "needed" || trigger == "none") {
+	if nDead > 0 && (trigger == "needed" || trigger == "none" || trigger == "sys-huge") {
 		// the janitor is parked after this cycle's purge: give the long-expired entries their own purge cycle first
 		g.release(false)
 		parked = false
@@ -537,7 +582,7 @@ func c12Case(b *Batch, idx int) {
 					return
 				}
 			}
-		} else if trigger == "none" || !expectEvict {
+		} else if trigger == "none" || trigger == "sys-huge" || !expectEvict {
 			// let two more cycles pass: still nothing may be evicted
 			for c := 0; c < 2; c++ {
 				g.release(false)
@@ -779,3 +824,198 @@ func c11Aging(b *Batch, idx int) {
 		}
 	}
 }
+
+// c11Renewed: long-expired entries are renewed by ExpireAll (expiry = now, i.e. recently expired) while the janitor runs
+// freely. Once a reader has seen the renewed expiry, the entry is a recently expired one and must survive every cleanup cycle.
+func c11Renewed(b *Batch, idx int) {
+	rng := rand.New(rand.NewSource(b.CaseSeed(idx)))
+	kind := backendKinds[rng.Intn(3)]
+	var cycles int64
+	cfg := cache.Config{DeleteExpiredJobInterval: 200 * time.Microsecond, DeleteExpiredAfter: 30 * time.Minute, TimeToLive: time.Hour, ExpirationJitter: -1,
+		EvictionNeeded: func() bool { atomic.AddInt64(&cycles, 1); return false }}
+	be := newBackend(kind, cfg)
+	nKeys := 64
+	keys := make([][]byte, nKeys)
+	for i := range keys {
+		keys[i] = []byte(fmt.Sprintf("renew-%d", i))
+	}
+	var lost, renewedSeen, rounds int64
+	var first atomic.Value
+	for round := 0; round < 400; round++ {
+		for _, k := range keys {
+			be.Write(cache.WithTTL(bg, -time.Hour, false), k, "old")
+		}
+		before := time.Now()
+		be.ExpireAll(bg)
+		// which entries were renewed (and not already deleted by the janitor)?
+		var renewed [][]byte
+		for _, k := range keys {
+			_, err := be.Read(bg, k)
+			if _, at, ok := be.Expired(err); ok && !at.Before(before.Add(-time.Second)) {
+				renewed = append(renewed, k)
+			}
+		}
+		renewedSeen += int64(len(renewed))
+		// two full cleanup cycles later they must still be there
+		c0 := atomic.LoadInt64(&cycles)
+		for dl := time.Now().Add(10 * time.Second); atomic.LoadInt64(&cycles) < c0+2 && time.Now().Before(dl); {
+			runtime.Gosched()
+		}
+		for _, k := range renewed {
+			if _, err := be.Read(bg, k); errClass(err) == "notfound" {
+				lost++
+				first.CompareAndSwap(nil, fmt.Sprintf("round %d: key %s had its expiry renewed by ExpireAll (seen by a Read) and was deleted by a cleanup cycle afterwards", round, k))
+			}
+		}
+		rounds++
+	}
+	runtime.KeepAlive(be)
+	b.R.Eval()
+	b.R.Count("renewed.rounds", rounds)
+	b.R.Count("renewed.entries_checked", renewedSeen)
+	b.R.Nontrivial(fmt.Sprintf("renewed/%s/%d", kind, idx))
+	if lost > 0 {
+		b.R.Violate(b, idx, "C11:"+kind+":renewed-entry-deleted", fmt.Sprintf("%d recently expired (renewed) entries were deleted by cleanup: %v", lost, first.Load()), map[string]interface{}{"backend": kind})
+	}
+}
+
+// ---- steered SyncMap cleanup: the janitor is parked at the verif pause point between inspecting an entry and deleting it.
+
+type parkSlot struct {
+	arrived chan struct{}
+	release chan struct{}
+}
+
+var (
+	parkTable sync.Map // key string -> *parkSlot
+	parkOnce  sync.Once
+)
+
+func installParkHook() {
+	parkOnce.Do(func() {
+		cache.VerifSetPoint(func(name string, key interface{}) {
+			if name != "syncmap.cleanup.before-delete" {
+				return
+			}
+			ks, _ := key.(string)
+			if v, ok := parkTable.Load(ks); ok {
+				slot := v.(*parkSlot)
+				parkTable.Delete(ks) // one shot
+				close(slot.arrived)
+				<-slot.release
+			}
+		})
+	})
+}
+
+// c11Parked: while the janitor sits between "this entry is long expired" and "delete it", the entry is renewed by ExpireAll,
+// rewritten with a fresh value, or deleted and rewritten. In every variant the cleanup cycle must not remove what is there now.
+func c11Parked(b *Batch, idx int) {
+	installParkHook()
+	rng := rand.New(rand.NewSource(b.CaseSeed(idx)))
+	var cycles int64
+	cfg := cache.Config{DeleteExpiredJobInterval: time.Millisecond, DeleteExpiredAfter: 30 * time.Minute, TimeToLive: time.Hour, ExpirationJitter: -1,
+		EvictionNeeded: func() bool { atomic.AddInt64(&cycles, 1); return false }}
+	if rng.Intn(2) == 0 {
+		cfg.TimeToLive = cache.UnlimitedTTL
+	}
+	be := newBackend("SyncMap", cfg)
+	key := fmt.Sprintf("park-%d-%d-%d", b.Seed, b.Index, idx)
+	slot := &parkSlot{arrived: make(chan struct{}), release: make(chan struct{})}
+	parkTable.Store(key, slot)
+	variant := []string{"expireall", "rewrite-fresh", "delete-rewrite", "rewrite-recent"}[rng.Intn(4)]
+	be.Write(cache.WithTTL(bg, -time.Hour, false), []byte(key), "old")
+	b.R.Eval()
+	fail := func(what, msg string) {
+		b.R.Violate(b, idx, "C11:SyncMap:parked-"+what, fmt.Sprintf("janitor parked between inspecting and deleting a long-expired entry, variant %s: %s", variant, msg), map[string]interface{}{"variant": variant})
+	}
+	select {
+	case <-slot.arrived:
+	case <-time.After(30 * time.Second):
+		parkTable.Delete(key)
+		b.R.Inconcl("C11 parked: janitor never reached the pause point")
+		return
+	}
+	b.R.Count("parked.cases", 1)
+	b.R.Nontrivial("parked/" + variant + fmt.Sprintf("/unl=%v", cfg.TimeToLive == cache.UnlimitedTTL))
+	want := ""
+	switch variant {
+	case "expireall":
+		t0 := time.Now()
+		be.ExpireAll(bg)
+		_, err := be.Read(bg, []byte(key))
+		if v, at, ok := be.Expired(err); !ok || v != "old" || at.Before(t0.Add(-time.Second)) {
+			fail("expireall-not-applied", fmt.Sprintf("after ExpireAll the entry reads (%v, %v)", v, err))
+		}
+		want = "expired:old" // now a recently expired entry: kept as stale fallback
+	case "rewrite-fresh":
+		be.Write(cache.WithTTL(bg, time.Hour, false), []byte(key), "fresh")
+		want = "ok:fresh"
+	case "delete-rewrite":
+		be.Delete(bg, []byte(key))
+		be.Write(bg, []byte(key), "again")
+		want = "ok:again"
+	case "rewrite-recent":
+		be.Write(cache.WithTTL(bg, -time.Second, false), []byte(key), "recent")
+		want = "expired:recent"
+	}
+	close(slot.release)
+	c0 := atomic.LoadInt64(&cycles)
+	for dl := time.Now().Add(30 * time.Second); atomic.LoadInt64(&cycles) < c0+2; {
+		if time.Now().After(dl) {
+			b.R.Inconcl("C11 parked: janitor did not finish two cycles")
+			return
+		}
+		time.Sleep(100 * time.Microsecond)
+	}
+	v, err := be.Read(bg, []byte(key))
+	got := errClass(err) + ":" + fmt.Sprint(v)
+	if sv, _, ok := be.Expired(err); ok {
+		got = "expired:" + fmt.Sprint(sv)
+	}
+	if got != want {
+		fail(variant, fmt.Sprintf("after the cleanup cycle the key reads %s, want %s", got, want))
+	}
+	runtime.KeepAlive(be)
+}
+
+// calloutStats runs an armed action once inside the next cache_delete / cache_expired metric call-out of a batch operation.
+type calloutStats struct {
+	mu     sync.Mutex
+	action func()
+	done   bool
+}
+
+func (c *calloutStats) arm(f func()) {
+	c.mu.Lock()
+	c.action, c.done = f, false
+	c.mu.Unlock()
+}
+
+func (c *calloutStats) fired() bool {
+	c.mu.Lock()
+	defer c.mu.Unlock()
+	c.action = nil
+	return c.done
+}
+
+func (c *calloutStats) Add(_ context.Context, name string, inc float64, _ ...string) {
+	if name != cache.MetricDelete && name != cache.MetricExpired {
+		return
+	}
+	if name == cache.MetricExpired && inc == 1 {
+		return // a single expired read, not ExpireAll
+	}
+	c.mu.Lock()
+	f := c.action
+	c.action = nil
+	if f != nil {
+		c.done = true
+	}
+	c.mu.Unlock()
+	if f != nil {
+		f()
+	}
+}
+
+func (c *calloutStats) Set(context.Context, string, float64, ...string) {}
